@@ -785,6 +785,28 @@ func (e *termEnv) load(u *ssa.UnOp) *Term {
 			}
 		}
 		if len(stores) == 1 {
+			// a local whose address is handed to a call (e.g. filled in by Unmarshal) no longer holds what was stored:
+			// it is named like its fields are ("alloc:T")
+			escapes := false
+			if _, isStruct := a.Type().(*types.Pointer).Elem().Underlying().(*types.Struct); isStruct {
+				if refs := a.Referrers(); refs != nil {
+					for _, r := range *refs {
+						switch x := r.(type) {
+						case *ssa.MakeInterface:
+							escapes = true
+						case ssa.CallInstruction:
+							for _, arg := range x.Common().Args {
+								if arg == ssa.Value(a) {
+									escapes = true
+								}
+							}
+						}
+					}
+				}
+			}
+			if escapes {
+				return tleaf("alloc:" + typeShort(a.Type()))
+			}
 			return e.termOf(stores[0].Val)
 		}
 		return tleaf(fmt.Sprintf("local:%s", typeShort(a.Type())))
